@@ -100,6 +100,23 @@ def tensor_attr(it: Any, v: TV, attr: str, node: Any) -> Any:
 
 def obj_attr(it: Any, o: Obj, attr: str, node: Any) -> Any:
     A = _A()
+    # abstract nn.Module: children / parameters enumerated from the object's own attributes
+    if "_children" in o.attrs and attr in ("named_children", "named_modules", "children", "modules"):
+        def walk_mods(m: Obj, prefix: str, deep: bool):
+            out = []
+            for nm, ch in m.attrs.get("_children", []):
+                full = f"{prefix}.{nm}" if prefix else nm
+                out.append((full, ch))
+                if deep and isinstance(ch, Obj):
+                    out += walk_mods(ch, full, True)
+            return out
+
+        def fn(it2, a, k, nd, o=o, attr=attr):
+            deep = attr in ("named_modules", "modules")
+            lst = ([("", o)] if deep else []) + walk_mods(o, "", deep)
+            return lst if attr.startswith("named_") else [m for _n, m in lst]
+
+        return A._Builtin(f"Module.{attr}", fn)
     return TV(T("attr", (A._term(o), attr)), kind="opaque")
 
 
